@@ -766,7 +766,8 @@ where
     if symmetric {
         kani::assume(r >= -13.8 && r <= 13.8);
     } else {
-        kani::assume(r > 0.0 && r <= 44.5);
+        // smallest rectangle sample: u >= 2^-53 times X[255] > 1e-4, i.e. > 1e-20 (asserted by c06_exp1_rect)
+        kani::assume(r >= 1e-20 && r <= 44.5);
     }
     r
 }
@@ -815,4 +816,111 @@ pub fn c_exp64_log(x: f64) -> f64 {
         EXP_N += 1;
     }
     r
+}
+
+// ---------------------------------------------------------------------------------------
+// C07: "free" logging stubs.  The affine/scale structure of a sampler is pure algebra around a
+// parameter-free standard quantity g (a libm result or a ziggurat draw): sample == loc + scale * g
+// must hold for *whatever* value g has.  These stubs return a nondeterministic g from a small set of
+// values on which the duplicated product scale * g is cheap for SAT (0, +-1, +-2, 1/2, -3), and log
+// arguments and results so that the harness can state the data flow.
+// ---------------------------------------------------------------------------------------
+pub static mut F_ARG: [f64; 6] = [0.0; 6];
+pub static mut F_ARG2: [f64; 6] = [0.0; 6];
+pub static mut F_RES: [f64; 6] = [0.0; 6];
+pub static mut F_N: usize = 0;
+
+#[inline(always)]
+fn simple_value() -> f64 {
+    let k: u8 = kani::any();
+    match k & 7 {
+        0 => 0.0,
+        1 => 1.0,
+        2 => -1.0,
+        3 => 2.0,
+        4 => 0.5,
+        5 => -3.0,
+        6 => 0.75,
+        _ => -0.0,
+    }
+}
+fn flog(a: f64, b: f64) -> f64 {
+    let r = simple_value();
+    unsafe {
+        if F_N < 6 {
+            F_ARG[F_N] = a;
+            F_ARG2[F_N] = b;
+            F_RES[F_N] = r;
+        }
+        F_N += 1;
+    }
+    r
+}
+pub fn f_un64(x: f64) -> f64 {
+    flog(x, 0.0)
+}
+pub fn f_un32(x: f32) -> f32 {
+    flog(x as f64, 0.0) as f32
+}
+pub fn f_bin64(x: f64, y: f64) -> f64 {
+    flog(x, y)
+}
+pub fn f_bin32(x: f32, y: f32) -> f32 {
+    flog(x as f64, y as f64) as f32
+}
+/// ziggurat as a free logged draw (consumes one word)
+pub fn f_ziggurat<R: rand::Rng + ?Sized, P, Z>(
+    rng: &mut R,
+    symmetric: bool,
+    _x_tab: crate::ziggurat_tables::ZigTable,
+    _f_tab: crate::ziggurat_tables::ZigTable,
+    _pdf: P,
+    _zero_case: Z,
+) -> f64
+where
+    P: FnMut(f64) -> f64,
+    Z: FnMut(&mut R, f64) -> f64,
+{
+    let _ = rng.next_u64();
+    flog(if symmetric { 1.0 } else { 0.0 }, 0.0)
+}
+pub fn flog_get(i: usize) -> (f64, f64, f64) {
+    unsafe { (F_ARG[i], F_ARG2[i], F_RES[i]) }
+}
+pub fn flog_n() -> usize {
+    unsafe { F_N }
+}
+
+macro_rules! vproof_free {
+    ($(#[$m:meta])* fn $name:ident() $body:block) => {
+        #[kani::proof]
+        #[kani::stub(libm::log, f_un64)]
+        #[kani::stub(libm::logf, f_un32)]
+        #[kani::stub(libm::exp, f_un64)]
+        #[kani::stub(libm::expf, f_un32)]
+        #[kani::stub(libm::tan, f_un64)]
+        #[kani::stub(libm::tanf, f_un32)]
+        #[kani::stub(libm::pow, f_bin64)]
+        #[kani::stub(libm::powf, f_bin32)]
+        #[kani::stub(f64::ln, f_un64)]
+        #[kani::stub(f64::exp, f_un64)]
+        #[kani::stub(crate::utils::ziggurat, f_ziggurat)]
+        $(#[$m])*
+        fn $name() $body
+    };
+}
+pub(crate) use vproof_free;
+
+/// OpenClosed01 / StandardUniform / Open01 draws as functions of the word (rand's definitions)
+pub fn oc01_64(w: u64) -> f64 {
+    (((w >> 11) + 1) as f64) * (1.0 / 9007199254740992.0)
+}
+pub fn oc01_32(w: u64) -> f32 {
+    ((((w as u32) >> 8) + 1) as f32) * (1.0 / 16777216.0)
+}
+pub fn su01_64(w: u64) -> f64 {
+    ((w >> 11) as f64) * (1.0 / 9007199254740992.0)
+}
+pub fn su01_32(w: u64) -> f32 {
+    (((w as u32) >> 8) as f32) * (1.0 / 16777216.0)
 }
